@@ -8,6 +8,7 @@ mod builder;
 mod address;
 mod sendall;
 mod sets;
+mod fixedtx;
 
 fn main() {
     let argv: Vec<String> = std::env::args().collect();
@@ -26,6 +27,7 @@ fn main() {
         "address" => address::main(&a),
         "sendall" => sendall::main(&a),
         "sets" => sets::main(&a),
+        "fixedtx" => fixedtx::main(&a),
         d => {
             eprintln!("unknown driver {}", d);
             std::process::exit(2);
